@@ -12,8 +12,11 @@
 //! for; the controller knows which refreshes have drained the pool): no superseded resource is
 //! handed out, the queue never grows beyond `size`, a blocked acquirer is woken by a push.
 use hc::{coq, Case, Rng, Sink};
+use mithril_common::crypto_helper::{MKMap, MKMapNode, MKTree, MKTreeStoreInMemory};
+use mithril_common::entities::{BlockNumber, BlockRange};
 use mithril_resource_pool::{verif, Reset, ResourcePool, ResourcePoolItem};
 use std::cell::RefCell;
+use std::collections::HashMap;
 use std::sync::atomic::{AtomicBool, AtomicU64, Ordering};
 use std::sync::mpsc::{channel, Sender};
 use std::sync::{Arc, Condvar, Mutex};
@@ -21,8 +24,17 @@ use std::time::{Duration, Instant};
 
 // ---------------------------------------------------------------------------------- resource
 
-/// What is pooled: an id, the generation it was built for (provenance), a "used" mark that
-/// `reset` must clear.
+/// What the harness needs from a pooled value: build one for (id, generation), recover that
+/// provenance from the value itself, write to it, see whether it has been reset.
+trait Pooled: Reset + Send + Sync + Sized + 'static {
+    fn make(id: u64, generation: u64) -> Self;
+    /// (id, generation it was built for)
+    fn provenance(&self) -> (u64, u64);
+    fn touch(&mut self);
+    fn is_dirty(&self) -> bool;
+}
+
+/// Light resource: an id, the generation it was built for, a "used" mark that `reset` must clear.
 #[derive(Debug)]
 struct Res {
     id: u64,
@@ -35,7 +47,66 @@ impl Reset for Res {
         Ok(())
     }
 }
-type Pool = ResourcePool<Res>;
+impl Pooled for Res {
+    fn make(id: u64, generation: u64) -> Self {
+        Res { id, built_for: generation, dirty: false }
+    }
+    fn provenance(&self) -> (u64, u64) {
+        (self.id, self.built_for)
+    }
+    fn touch(&mut self) {
+        self.dirty = true;
+    }
+    fn is_dirty(&self) -> bool {
+        self.dirty
+    }
+}
+
+/// The type the provers pool: a Merkle map over block ranges, with the pool crate's own
+/// `impl Reset for MKMap` (compress).  The map's content encodes (id, generation): its root is
+/// looked up in a registry filled at creation, so the generation of a handed-out map is judged
+/// from the data it would serve.  `touch` is what `compute_proof` does with an acquired map
+/// (replace a block range root by the full Merkle tree of that range); `reset` must undo it.
+type MkMap = MKMap<BlockRange, MKMapNode<BlockRange, MKTreeStoreInMemory>, MKTreeStoreInMemory>;
+
+fn range_leaves(id: u64, generation: u64, k: u64) -> Vec<String> {
+    if k == 3 {
+        vec![format!("resource-{id}"), format!("resource-{id}-pad")]
+    } else {
+        (0..3).map(|j| format!("generation-{generation}-range-{k}-tx-{j}")).collect()
+    }
+}
+fn range_tree(id: u64, generation: u64, k: u64) -> MKTree<MKTreeStoreInMemory> {
+    MKTree::new(&range_leaves(id, generation, k)).unwrap()
+}
+static REGISTRY: Mutex<Option<HashMap<Vec<u8>, (u64, u64)>>> = Mutex::new(None);
+
+impl Pooled for MkMap {
+    fn make(id: u64, generation: u64) -> Self {
+        let entries: Vec<(BlockRange, MKMapNode<BlockRange, MKTreeStoreInMemory>)> = (0..4u64)
+            .map(|k| {
+                let root = range_tree(id, generation, k).compute_root().unwrap();
+                (BlockRange::from_block_number(BlockNumber(k * 15)), MKMapNode::TreeNode(root))
+            })
+            .collect();
+        let map = MKMap::new(&entries).unwrap();
+        let root: Vec<u8> = map.compute_root().unwrap().to_vec();
+        REGISTRY.lock().unwrap().get_or_insert_with(HashMap::new).insert(root, (id, generation));
+        map
+    }
+    fn provenance(&self) -> (u64, u64) {
+        let root: Vec<u8> = self.compute_root().unwrap().to_vec();
+        REGISTRY.lock().unwrap().as_ref().and_then(|m| m.get(&root).copied()).unwrap_or((u64::MAX, u64::MAX))
+    }
+    fn touch(&mut self) {
+        let (id, generation) = self.provenance();
+        let k = id % 3;
+        self.replace(BlockRange::from_block_number(BlockNumber(k * 15)), range_tree(id, generation, k).into()).unwrap();
+    }
+    fn is_dirty(&self) -> bool {
+        self.iter().any(|(_, v)| !matches!(v, MKMapNode::TreeNode(_)))
+    }
+}
 
 // ---------------------------------------------------------------------------------- scheduler
 
@@ -122,26 +193,27 @@ const SHORT: Duration = Duration::from_millis(8);
 /// The pool calls of `compute_cache` (prover.rs / prover_legacy.rs), in the same order:
 /// `size()`, `clear_and_increment_discriminant()`, then `size` x `give_back_resource(new, g)`.
 /// (`SOURCE_SHAPE` below checks that the two provers still make exactly these calls.)
-fn refresh(pool: &'static Pool, ctl: &Ctl, me: usize) {
+fn refresh<T: Pooled>(pool: &'static ResourcePool<T>, ctl: &Ctl, me: usize) {
     let size = pool.size();
     let g = pool.clear_and_increment_discriminant().unwrap();
     ctl.m.lock().unwrap()[me].drained = Some(g);
     for _ in 0..size {
         let id = ctl.next_id.fetch_add(1, Ordering::SeqCst);
-        pool.give_back_resource(Res { id, built_for: g, dirty: false }, g).unwrap();
+        pool.give_back_resource(T::make(id, g), g).unwrap();
     }
 }
 
-fn worker(i: usize, ctl: Arc<Ctl>, pool: &'static Pool, rx: std::sync::mpsc::Receiver<Cmd>) {
+fn worker<T: Pooled>(i: usize, ctl: Arc<Ctl>, pool: &'static ResourcePool<T>, rx: std::sync::mpsc::Receiver<Cmd>) {
     ME.with(|me| *me.borrow_mut() = Some((i, ctl.clone())));
-    let mut item: Option<ResourcePoolItem<'static, Res>> = None;
+    let mut item: Option<ResourcePoolItem<'static, T>> = None;
     while let Ok(cmd) = rx.recv() {
         let mut outcome = Outcome::None;
         match cmd {
             Cmd::Exit => break,
             Cmd::Acquire { long } => match pool.acquire_resource(if long { LONG } else { SHORT }) {
                 Ok(it) => {
-                    outcome = Outcome::Handout { id: it.id, built_for: it.built_for, dirty: it.dirty, tag: it.discriminant() };
+                    let (id, built_for) = it.provenance();
+                    outcome = Outcome::Handout { id, built_for, dirty: it.is_dirty(), tag: it.discriminant() };
                     item = Some(it);
                 }
                 Err(_) => outcome = Outcome::Timeout,
@@ -154,7 +226,7 @@ fn worker(i: usize, ctl: Arc<Ctl>, pool: &'static Pool, rx: std::sync::mpsc::Rec
             }
             Cmd::Use => {
                 if let Some(it) = item.as_mut() {
-                    it.dirty = true;
+                    it.touch();
                 }
             }
             Cmd::Refresh => refresh(pool, &ctl, i),
@@ -261,9 +333,9 @@ fn wait_until<F: Fn(&Vec<W>) -> bool>(ctl: &Ctl, limit: Duration, f: F) -> bool 
     }
 }
 
-fn run_impl(inp: &Input) -> RunResult {
-    let init: Vec<Res> = (0..inp.init).map(|i| Res { id: i as u64 + 1, built_for: 0, dirty: false }).collect();
-    let pool: &'static Pool = Box::leak(Box::new(ResourcePool::new(inp.size, init)));
+fn run_impl<T: Pooled>(inp: &Input) -> RunResult {
+    let init: Vec<T> = (0..inp.init).map(|i| T::make(i as u64 + 1, 0)).collect();
+    let pool: &'static ResourcePool<T> = Box::leak(Box::new(ResourcePool::new(inp.size, init)));
     let ctl = Arc::new(Ctl {
         m: Mutex::new(
             (0..inp.threads)
@@ -280,7 +352,7 @@ fn run_impl(inp: &Input) -> RunResult {
         let (tx, rx) = channel();
         txs.push(tx);
         let c = ctl.clone();
-        joins.push(std::thread::spawn(move || worker(i, c, pool, rx)));
+        joins.push(std::thread::spawn(move || worker::<T>(i, c, pool, rx)));
     }
 
     let mut res = RunResult { log: vec![], obs: vec![], final_queue: vec![], violation: None, handouts: 0, refreshes: 0, overlap: false };
@@ -415,17 +487,29 @@ fn run_impl(inp: &Input) -> RunResult {
         let mut woken: Option<usize> = None;
         if pushed && !waiting_before.is_empty() {
             let wb = waiting_before.clone();
-            if wait_until(&ctl, Duration::from_secs(3), |g| wb.iter().any(|&w| g[w].st == St::Idle)) {
+            if wait_until(&ctl, Duration::from_secs(2), |g| wb.iter().any(|&w| g[w].st == St::Idle)) {
                 let g = ctl.m.lock().unwrap();
                 woken = wb.iter().copied().find(|&w| g[w].st == St::Idle);
-            } else if res.violation.is_none() {
-                res.violation = Some(format!(
-                    "event {}: thread {} pushed a resource while threads {:?} were blocked in acquire_resource and none was woken",
-                    res.log.len(), t, waiting_before
-                ));
+            } else {
+                if res.violation.is_none() {
+                    res.violation = Some(format!(
+                        "event {}: thread {} pushed a resource while threads {:?} were blocked in acquire_resource and none was woken",
+                        res.log.len(), t, waiting_before
+                    ));
+                }
+                record(&mut res, Exec::Step { t, ci: ev.ci, ch: ev.ch, wake: 0 }, t, snap, None, true, &mut last_drained);
+                break 'outer;
             }
         }
         let waiting_short = short && snap.st == St::Waiting;
+        if short && snap.st == St::Idle && snap.outcome == Outcome::Timeout {
+            // the short wait expired before the controller looked: the thread did block (it reports
+            // a time-out), so the two events are recorded from what is known of them
+            let blocked = Snap { st: St::Waiting, status: 3, outcome: Outcome::None, drained: None, others_busy: false };
+            record(&mut res, Exec::Step { t, ci: ev.ci, ch: ev.ch, wake: 0 }, t, blocked, Some(count_before), true, &mut last_drained);
+            record(&mut res, Exec::Timeout { t }, t, snap, Some(count_before), true, &mut last_drained);
+            continue;
+        }
         match woken {
             Some(w) => {
                 // the push and the woken thread's pop are observed together: the count is reported
@@ -453,7 +537,7 @@ fn run_impl(inp: &Input) -> RunResult {
         while pool.count().unwrap() > 0 {
             match pool.acquire_resource(Duration::from_millis(1)) {
                 Ok(it) => {
-                    res.final_queue.push((it.id, it.built_for));
+                    res.final_queue.push(it.provenance());
                     items.push(it);
                 }
                 Err(_) => break,
@@ -465,7 +549,7 @@ fn run_impl(inp: &Input) -> RunResult {
     ctl.cv.notify_all();
     pool.set_discriminant(u64::MAX - 1).unwrap();
     drop(items);
-    let deadline = Instant::now() + Duration::from_secs(40);
+    let deadline = Instant::now() + Duration::from_secs(if res.violation.is_some() { 1 } else { 10 });
     loop {
         let all_idle = ctl.m.lock().unwrap().iter().all(|w| w.st == St::Idle);
         if all_idle || Instant::now() > deadline {
@@ -473,7 +557,7 @@ fn run_impl(inp: &Input) -> RunResult {
         }
         let any_waiting = ctl.m.lock().unwrap().iter().any(|w| w.st == St::Waiting);
         if any_waiting && inp.size > 0 {
-            let _ = pool.give_back_resource(Res { id: 0, built_for: u64::MAX - 1, dirty: false }, pool.discriminant().unwrap());
+            let _ = pool.give_back_resource(T::make(0, u64::MAX - 1), pool.discriminant().unwrap());
         }
         ctl.cv.notify_all();
         std::thread::sleep(Duration::from_micros(200));
@@ -481,8 +565,12 @@ fn run_impl(inp: &Input) -> RunResult {
     for tx in &txs {
         let _ = tx.send(Cmd::Exit);
     }
-    for j in joins {
-        let _ = j.join();
+    // a worker that is still blocked (only after a wake-up failure) is left to time out on its own
+    let idle: Vec<bool> = ctl.m.lock().unwrap().iter().map(|w| w.st == St::Idle).collect();
+    for (k, j) in joins.into_iter().enumerate() {
+        if idle[k] {
+            let _ = j.join();
+        }
     }
     res
 }
@@ -528,9 +616,9 @@ fn obs_of(r: &RunResult) -> String {
     coq::ol(&[coq::ol(&steps), coq::ol(&fq)])
 }
 
-fn desc(inp: &Input) -> serde_json::Value {
+fn desc(inp: &Input, mkmap: bool) -> serde_json::Value {
     let s: Vec<String> = inp.sched.iter().map(|e| format!("{}:{:?}/{:?}", e.t, e.ci, e.ch)).collect();
-    serde_json::json!({"size": inp.size, "initial_resources": inp.init, "threads": inp.threads, "schedule": s.join(" ")})
+    serde_json::json!({"pooled": if mkmap { "MKMap<BlockRange, MKMapNode, MKTreeStoreInMemory>" } else { "record" }, "size": inp.size, "initial_resources": inp.init, "threads": inp.threads, "schedule": s.join(" ")})
 }
 
 // ---------------------------------------------------------------------------------- generators
@@ -743,12 +831,23 @@ fn main() {
     let mut sink = Sink::new(&args);
     verif::install_scheduler(Some(sched));
 
-    let mut inputs: Vec<(String, Input)> = witnesses().into_iter().map(|(k, i)| (k.to_string(), i)).collect();
+    // (kind, input, pooled type: false = light record, true = the provers' MKMap)
+    let mut inputs: Vec<(String, Input, bool)> = vec![];
+    for (k, i) in witnesses() {
+        inputs.push((k.to_string(), i.clone(), false));
+        inputs.push((format!("{k}-mkmap"), i, true));
+    }
     let n_rand = if args.thorough { 12_000 } else { 500 };
     for k in 0..n_rand {
         let mut r = rng.fork();
         let class = k % 3;
-        inputs.push((["random-small", "random-medium", "random-wide"][class as usize].to_string(), random_input(&mut r, class)));
+        let kind = ["random-small", "random-medium", "random-wide"][class as usize];
+        let inp = random_input(&mut r, class);
+        if k % 5 == 4 {
+            inputs.push((format!("{kind}-mkmap"), inp, true));
+        } else {
+            inputs.push((kind.to_string(), inp, false));
+        }
     }
 
     for (path, src) in PROVERS {
@@ -769,19 +868,20 @@ fn main() {
                     break;
                 }
                 if wanted[k].is_some() {
-                    *results[k].lock().unwrap() = Some(run_impl(&inputs[k].1));
+                    let r = if inputs[k].2 { run_impl::<MkMap>(&inputs[k].1) } else { run_impl::<Res>(&inputs[k].1) };
+                    *results[k].lock().unwrap() = Some(r);
                 }
             });
         }
     });
-    for (k, (kind, inp)) in inputs.into_iter().enumerate() {
+    for (k, (kind, inp, mkmap)) in inputs.into_iter().enumerate() {
         let Some(id) = wanted[k] else { continue };
         let r = results[k].lock().unwrap().take().unwrap();
-        let key = format!("{}/{}/{}/{:016x}", inp.size, inp.init, inp.threads, fnv(&format!("{:?}", r.log)));
+        let key = format!("{}/{}/{}/{}/{:016x}", mkmap, inp.size, inp.init, inp.threads, fnv(&format!("{:?}", r.log)));
         sink.push(Case {
             id,
             kind,
-            desc: desc(&inp),
+            desc: desc(&inp, mkmap),
             model: Some(model_term(&inp, &r.log)),
             impl_obs: obs_of(&r),
             holds: Some(r.violation.is_none()),
